@@ -3,11 +3,15 @@ import NGF.Proofs.Precedence
 import NGF.Proofs.NginxEval
 import NGF.Proofs.Locations
 import NGF.Proofs.Pipeline
+import NGF.Proofs.PipelineRefine
+import NGF.Proofs.PipelineWinner
 import NGF.Generated.RoutingFacts
 /-
 C02 — requests are routed exactly as the attached Routes prescribe: property theorems about the cores the
-driver runs (Model/Hostname, Model/Precedence, Model/NginxEval). The end-to-end refinement
-`nginxEval (generate s) q ≃ gwapiRoute s q` is decided by the judge (Model/C02Judge) on the real files.
+driver runs (Model/Hostname, Model/Precedence, Model/NginxEval), and — for the pipeline fragment of Model/Pipeline —
+the end-to-end refinement `nginxEvalConf (gen s) q = routeF s q` for ALL scenarios and requests
+(`route_refines_spec_fragment`). Outside the fragment the refinement is decided by the judge (Model/C02Judge) on the
+real files.
 -/
 namespace NGF.Props.C02
 
@@ -391,8 +395,12 @@ end locations
 listeners and HTTPRoutes; `nginxEvalConf` is the NGINX evaluator on the abstract `Conf`; `routeF` the Gateway API
 specification restated for the fragment. The equality `abstract(real http.conf) = gen s` is validated on every run
 (driver mode `pipeline`), as is `nginxEvalConf (gen s) q = routeF s q` on the probes of every in-fragment scenario
-with `noShadow`. Proved here: the per-stage refinements, non-interference of `gen`, and the flagship statement on the
-regions where no route is involved (`route_refines_spec_fragment_partial`). The full composition is NOT proved. -/
+with `noShadow`. Proved here: the per-stage refinements, non-interference of `gen`, and the flagship statement
+`route_refines_spec_fragment` for ALL scenarios of the fragment and ALL well-formed requests, composed from the server
+stage (`server_is_most_specific_owner`), the location stage (`location_picks_best_path_rule`) and the rule stage
+(`server_internal_pick`). Its hypotheses beyond `inFragment`/`noShadow` are the executable predicates of
+Model/PipelineHyp.lean; each is necessary (witnesses below), and the driver evaluates the equation on exactly the
+(scenario, request) pairs they allow. -/
 section pipeline
 open NGF.Pipeline
 
@@ -434,6 +442,20 @@ theorem noninterference_foreign_fragment (s : Scenario) :
   · intro c hc
     exact gen_of_winner_eq rfl (winner_insert_class s c hc)
 
+/-- Non-interference of Gateways, any position: `olderGw` (creationTimestamp, namespace, name) is a strict weak order, the
+served Gateway is one no other Gateway of the class is older than, and a Gateway of our class that the served one is
+older than — inserted at ANY position of the list, not only at the head — changes neither the served Gateway nor `gen s`. -/
+theorem winner_insert_gateway_anywhere (s : Scenario) (a b : List Gateway) (y g : Gateway)
+    (hs : s.gateways = a ++ b) (hw : winner s = some g) (hy : olderGw g y = true) :
+    NGF.Sort.SWO olderGw ∧ winner { s with gateways := a ++ y :: b } = some g ∧
+    gen { s with gateways := a ++ y :: b } = gen s := by
+  have h := winner_insert_younger_anywhere s a b y g hs hw hy
+  exact ⟨olderGw_swo, h, gen_of_winner_eq rfl (h.trans hw.symm)⟩
+
+/-- the served Gateway is a Gateway of the list that no other one of the list is older than -/
+theorem winner_is_oldest {l : List Gateway} {m : Gateway} (h : oldest l = some m) :
+    m ∈ l ∧ ∀ x ∈ l, olderGw x m = false := oldest_spec h
+
 /-- which routes are inert, syntactically -/
 theorem inert_when_parent_elsewhere {g : Gateway} {x : Route}
     (h : ∀ p ∈ x.parents, (p.ns == g.ns && p.name == g.name) = false ∨
@@ -448,8 +470,8 @@ theorem inert_when_namespace_not_allowed {g : Gateway} {x : Route} (hns : (x.ns 
 port is used by no listener (both refused); and nobody owns the request host on the port — no valid route attached to a
 listener of the port has hostnames that meet the listener's at that host (`owned`) — where both sides answer 404. This
 last region composes attachment (`attachment_is_intersection`), the generated server list (`hostsOf`) and NGINX's
-server selection (`server_select_most_specific`). The remaining region (a server is selected, then location, then the
-njs list) is validated by execution on every run, not proved. -/
+server selection (`server_select_most_specific`). Kept as the statement for requests `reqOK` does not cover on these
+regions; the region "a server is selected" is `route_refines_spec_fragment` below. -/
 theorem route_refines_spec_fragment_partial (s : Scenario) (q : Req) :
     (winner s = none → nginxEvalConf (gen s) q = routeF s q) ∧
     (∀ g, winner s = some g → g.listeners.any (·.port == q.port) = false → nginxEvalConf (gen s) q = routeF s q) ∧
@@ -461,6 +483,102 @@ theorem route_refines_spec_fragment_partial (s : Scenario) (q : Req) :
       nginxEvalConf (gen s) q = routeF s q) :=
   ⟨refines_no_gateway s q, fun g h hp => refines_unused_port s q g h hp,
    fun g hw hport hq hlen hne hcat hun => refines_unowned_host s q g hw hport hq hlen hne hcat hun⟩
+
+/-- Server stage, all inputs (glue (i)+(ii) of the notes): when `n` is the most specific generated server name of port `p`
+that stands for the concrete request host — which is what NGINX selects, `server_select_most_specific` — the
+specification's pool (covering candidates of maximal `candSpec`) is exactly the set of candidates behind the entries
+of server `(p, n)`: an owned host selects the server of its most specific owner, and `specificity` of the
+listener/route intersection equals `nameSpec` of the generated name. -/
+theorem server_is_most_specific_owner {g : Gateway} {routes : List Route} (ok : ScenOK g routes) {p : Nat} {q n : Str}
+    (hq : NGF.NginxEval.isWildName q = false ∧ q ≠ NGF.NginxEval.catchAll) (hn : (p, n) ∈ hostsOf g routes)
+    (hcov : nameCovers n q = true)
+    (hmax : ∀ m, (p, m) ∈ hostsOf g routes → nameCovers m q = true → nameSpec m ≤ nameSpec n) (c : Cand) :
+    c ∈ ((specCands g routes p).filter (candCovers · q)).filter
+        (fun c => candSpec c == ((specCands g routes p).filter (candCovers · q)).foldl (fun acc c => max acc (candSpec c)) 0) ↔
+    (⟨p, n, c⟩ : XE) ∈ xentries g routes :=
+  pool_iff_server_entries ok hq hn hcov hmax c
+
+/-- … and the default server answers only when no candidate stands for the host. -/
+theorem default_server_iff_no_candidate {g : Gateway} {routes : List Route} (ok : ScenOK g routes) {p : Nat} {q : Str}
+    (hq : NGF.Hostname.isWild q = false) (hnone : ∀ m, (p, m) ∈ hostsOf g routes → nameCovers m q = false) :
+    (specCands g routes p).filter (candCovers · q) = [] :=
+  no_covering_of_unselected ok hq hnone
+
+/-- Location stage, all inputs (first half of glue (iii)): over the external locations `createLocations` generates for
+distinct path rules (`keys`: (exact, path); every path starts with `/`, no PathPrefix value but `/` ends in `/`), NGINX
+ends — for every request path starting with `/` — in a location of a path rule that hits the path and that no other
+hitting rule outranks (Exact before PathPrefix, then the longer value), or, when NO rule hits, in the default root
+location / nowhere (404). Never the 301 auto-redirect. -/
+theorem location_picks_best_path_rule {keys : List Key} (ok : KeysOK keys) {q : Str} (hq : q.head? = some '/')
+    (tl : NGF.Precedence.GenLoc → NGF.NginxEval.Loc) (hte : ∀ gl, (tl gl).exact = gl.exact)
+    (htp : ∀ gl, (tl gl).path = gl.path) :
+    (∃ gl ∈ NGF.Precedence.genLocs (rulesOf keys),
+      NGF.NginxEval.selectLoc ((NGF.Precedence.genLocs (rulesOf keys)).map tl) q = .loc (tl gl) ∧
+      ((∃ k, keys[gl.rule]? = some k ∧ khit k q = true ∧
+          ∀ k' ∈ keys, khit k' q = true → (k'.1 = true → k.1 = true) ∧ (k'.1 = k.1 → k'.2.length ≤ k.2.length)) ∨
+       (gl.rule = keys.length ∧ ∀ k ∈ keys, khit k q = false))) ∨
+    (NGF.NginxEval.selectLoc ((NGF.Precedence.genLocs (rulesOf keys)).map tl) q = .none ∧ ∀ k ∈ keys, khit k q = false) :=
+  select_fragment ok hq tl hte htp
+
+/-- a generated location (modifier, path) belongs to exactly one path rule -/
+theorem location_determines_path_rule {keys : List Key} (ok : KeysOK keys) {a b : NGF.Precedence.GenLoc}
+    (ha : a ∈ NGF.Precedence.genLocs (rulesOf keys)) (hb : b ∈ NGF.Precedence.genLocs (rulesOf keys))
+    (he : a.exact = b.exact) (hp : a.path = b.path) : a.rule = b.rule :=
+  genLocs_rule_unique ok ha hb he hp
+
+/-- Rule stage, all inputs (second half of glue (iii)): the njs matcher on a generated match decides exactly the
+specification's conditions … -/
+theorem njs_decides_conditions {m : Pipeline.Match} (hm : matchOK m = true) {q : Req}
+    (hq : ∀ h ∈ q.headers, h.2.contains ',' = false) :
+    NGF.NginxEval.Njs.testMatch (njsReq q) (njsMatchOf m) = .ok (condsHit m q) :=
+  testMatch_eq_condsHit hm hq
+
+/-- … the specification's precedence is a strict weak order that is: path rank, then `higherPriority` of the dataplane
+key (what `sortMatchRules` sorts by), then source position … -/
+theorem beats_is_path_then_priority_then_position (a b : Cand) :
+    NGF.Sort.SWO beats ∧
+    beats a b = (if a.m.exact != b.m.exact then a.m.exact
+       else if a.m.path.length != b.m.path.length then decide (a.m.path.length > b.m.path.length)
+       else (HP a b || (!HP b a && idxLt a b))) :=
+  ⟨beats_swo, beats_split a b⟩
+
+/-- … and inside the server NGINX selected — through the `eraseDups` grouping of `serverOf`, the stable sort and the njs
+list — NGINX answers 404 exactly when no entry's path hits, and otherwise performs the action of an entry whose path
+and conditions hit and that NO other hitting entry of the server `beats`: location selection + njs = `best` of the hit
+set within one server. -/
+theorem server_internal_pick {g : Gateway} {routes : List Route} (ok : ScenOK g routes) (p : Nat) (n : Str) {q : Req}
+    (hq : q.path.head? = some '/') (hqh : ∀ h ∈ q.headers, h.2.contains ',' = false)
+    (hsh : (serverOf (entries g routes) p n).locs.all locShadowOK = true) :
+    ((∀ y ∈ xmine g routes p n, pathHit y.c.m q.path = false) ∧
+      locEval (serverOf (entries g routes) p n) q = .status 404) ∨
+    (∃ x ∈ xmine g routes p n, pathHit x.c.m q.path = true ∧ condsHit x.c.m q = true ∧
+      locEval (serverOf (entries g routes) p n) q = evalAct q (actOf p x.c.action) ∧
+      ∀ y ∈ xmine g routes p n, pathHit y.c.m q.path = true → condsHit y.c.m q = true → beats y.c x.c = false) :=
+  server_pick ok p n hq hqh hsh
+
+/-- the stability of `sortMatchRules` is what implements "the first rule / match in the list wins": the first entry, in
+the order `upsertRoute` appends them, that satisfies a provenance-blind predicate has the least (rule, match) index
+among the entries of its route that satisfy it -/
+theorem source_order_breaks_ties {g : Gateway} {routes : List Route}
+    (ids : nodup (routes.map fun r => (r.ns, r.name)) = true) {P : XE → Bool} (hP : Blind P) {x y : XE}
+    (hx : (xentries g routes).find? P = some x) (hy : y ∈ xentries g routes) (hPy : P y = true)
+    (hport : y.port = x.port) (hhost : y.host = x.host) (hns : y.c.ns = x.c.ns) (hname : y.c.name = x.c.name) :
+    idxLt y.c x.c = false :=
+  first_has_least_index ids hP hx hy hPy hport hhost hns hname
+
+/-- **The end-to-end refinement theorem of the pipeline fragment.** For EVERY scenario of the fragment and EVERY
+well-formed request, what NGINX does under the generated configuration is what Gateway API prescribes:
+`nginxEvalConf (gen s) q = routeF s q`. Hypotheses (all executable, Model/Pipeline.lean and Model/PipelineHyp.lean):
+`inFragment s`; `noShadow (gen s)` (excludes known finding 1, no fallback to a less specific path); `namesPlain s` (no
+hostname is literally `~^`; model-only: the real validation rejects it); `routesHaveRules s` (excludes the finding
+`C02:route-without-configured-rule-captures-its-hostnames`); `reqOK q` (concrete Host shorter than 100000, path
+starting with `/`, no header value with a comma — the last excludes the list-valued-header reading and the finding
+`C02:header-match-value-with-comma-never-matches`). -/
+theorem route_refines_spec_fragment (s : Scenario) (q : Req)
+    (hf : inFragment s = true) (hn : noShadow (gen s) = true)
+    (hp : namesPlain s = true) (hr : routesHaveRules s = true) (hq : reqOK q = true) :
+    nginxEvalConf (gen s) q = routeF s q :=
+  refines_fragment s q hf hn hp hr hq
 
 /-! non-vacuity, by evaluation (`gen` sorts and de-duplicates by well-founded recursion, which `decide` cannot unfold) -/
 
@@ -494,6 +612,62 @@ def exReq (host path : String) (hdr : List (Str × Str)) : Req :=
 
 -- the unowned region is inhabited: nobody owns bar.org on port 80 of the example (both sides 404)
 #guard nginxEvalConf (gen exScenario) (exReq "bar.org" "/coffee" []) == .status 404
+
+-- the hypotheses of `route_refines_spec_fragment` are satisfiable by a non-trivial state, on every region
+#guard refineOK exScenario &&
+  [exReq "cafe.example.com" "/coffee/x" [("Version".toList, "v1".toList)], exReq "cafe.example.com" "/coffee" [],
+   exReq "cafe.example.com" "/tea" [], exReq "x.example.com" "/" [], exReq "bar.org" "/coffee" []].all reqOK
+example : reqOK (exReq "cafe.example.com" "/coffee" [("Version".toList, "v1".toList)]) = true := by decide
+
+/-! Each extra hypothesis is NECESSARY: at the excluded point the two sides differ, with every other hypothesis true. -/
+
+/-- `routesHaveRules`: a valid route WITHOUT rules still gets a server for `cafe.example.com`, which answers 404 where
+the specification routes to the `*.example.com` route (reproduced on the real pipeline: corpus/C02/11-…; known finding
+`C02:route-without-configured-rule-captures-its-hostnames`) -/
+def exNoRules : Scenario :=
+  { exScenario with routes :=
+      [{ exRoute with name := "norules".toList, rules := [] },
+       { exRoute with name := "wild".toList, hostnames := ["*.example.com".toList],
+                      rules := [⟨[exMatch "/" false []], .forward [⟨"default_svc0_80".toList, 1, true⟩]⟩] }] }
+#guard inFragment exNoRules && noShadow (gen exNoRules) && namesPlain exNoRules && !routesHaveRules exNoRules &&
+  reqOK (exReq "cafe.example.com" "/" [])
+#guard nginxEvalConf (gen exNoRules) (exReq "cafe.example.com" "/" []) == .status 404
+#guard routeF exNoRules (exReq "cafe.example.com" "/" []) == .proxy [("default_svc0_80".toList, 10000)]
+
+/-- `namesPlain`: NGINX reads the server name `~^` as the catch-all regex (model only: `hostOK` lets the name pass, the
+real hostname validation does not — `toFragment` puts such a scenario outside the fragment) -/
+def exTilde : Scenario :=
+  { exScenario with
+      gateways := [{ exGw with listeners := [⟨"l1".toList, 80, [], false⟩] }],
+      routes := [{ exRoute with hostnames := ["~^".toList],
+                                rules := [⟨[exMatch "/" false []], .forward [⟨"default_svc0_80".toList, 1, true⟩]⟩] }] }
+#guard inFragment exTilde && noShadow (gen exTilde) && !namesPlain exTilde && routesHaveRules exTilde
+#guard nginxEvalConf (gen exTilde) (exReq "foo.com" "/" []) == .proxy [("default_svc0_80".toList, 10000)]
+#guard routeF exTilde (exReq "foo.com" "/" []) == .status 404
+
+-- `reqOK` (comma): njs splits the request header value at `,` and matches a piece; `headerHit` compares the line
+#guard refineOK exScenario && !reqOK (exReq "cafe.example.com" "/coffee" [("version".toList, "v1,v2".toList)])
+#guard nginxEvalConf (gen exScenario) (exReq "cafe.example.com" "/coffee" [("version".toList, "v1,v2".toList)])
+        == .proxy [("default_svc0_80".toList, 10000)]
+#guard nginxEvalConf (gen exScenario) (exReq "cafe.example.com" "/coffee" [("version".toList, "v1,v2".toList)])
+        == routeF exScenario (exReq "cafe.example.com" "/coffee" [("version".toList, "v1,v2".toList)])
+-- (in `exScenario` both matches of rule 0 forward to the same backend; with different backends the sides differ:)
+def exComma : Scenario :=
+  { exScenario with routes :=
+      [{ exRoute with rules :=
+          [⟨[exMatch "/coffee" false [("version".toList, "v1".toList)]], .forward [⟨"default_a_80".toList, 1, true⟩]⟩,
+           ⟨[exMatch "/coffee" false []], .forward [⟨"default_b_80".toList, 1, true⟩]⟩] }] }
+#guard refineOK exComma
+#guard nginxEvalConf (gen exComma) (exReq "cafe.example.com" "/coffee" [("version".toList, "v1,v2".toList)])
+        == .proxy [("default_a_80".toList, 10000)]
+#guard routeF exComma (exReq "cafe.example.com" "/coffee" [("version".toList, "v1,v2".toList)])
+        == .proxy [("default_b_80".toList, 10000)]
+
+-- `winner_insert_gateway_anywhere` is not vacuous: a younger Gateway of our class, inserted after the served one
+def exYoung : Gateway := { exGw with name := "gw-young".toList, age := 7, listeners := [⟨"http".toList, 8080, [], true⟩] }
+example : olderGw exGw exYoung = true := by decide
+#guard winner exScenario == some exGw && winner { exScenario with gateways := [exGw] ++ exYoung :: [] } == some exGw
+#guard (gen { exScenario with gateways := [exGw] ++ exYoung :: [] }).ports == (gen exScenario).ports
 
 example : inert exGw exForeign := inert_when_parent_elsewhere (by decide)
 
